@@ -326,6 +326,52 @@ func tierSizes(tier string, scale int) sizes {
 	return sizes{2, 2, 6000 * scale, 10000 * scale, 5000, 3000 * scale, 6000 * scale}
 }
 
+// whitelistShapes enumerates the inputs on which the false-positive rules of
+// notWhitelist decide: two-token fingerprints (number / word + comment, with every
+// kind of byte between them and in front), string-operator-string with every
+// open / close quote combination, and the three-token "and"-shapes with and without
+// a further token.
+func whitelistShapes(emit func(string)) {
+	leads := []string{"", " ", "\t", "\xa0", "\x00", "  ", "+", "("}
+	firsts := []string{"1", "12", "1.5", "0x1f", "1e5", "foo", "@v", "'s'", "1 union", "union", "1+foo"}
+	mids := []string{"", " ", "\xa0", "\t", "\x01", "\x7f", "\x00", "/", "-", "*", "\n"}
+	comments := []string{"--", "-- x", "--x", "-- ", "#", "#x", "/*", "/*x*/", "/*!1*/", "/**/", "-- sp_password", "/*sp_password*/", "--sp_password", "# sp_password", "-", "--\n1"}
+	for _, l := range leads {
+		for _, f := range firsts {
+			for _, m := range mids {
+				for _, c := range comments {
+					emit(l + f + m + c)
+				}
+			}
+		}
+	}
+	quotes := []string{"", "'", "\""}
+	ops := []string{"+", "||", " and ", " or ", "&&", " like ", " into outfile ", " into ", " having ", " union ", ","}
+	for _, q0 := range quotes {
+		for _, q1 := range quotes {
+			for _, q2 := range quotes {
+				for _, q3 := range quotes {
+					for _, o := range ops {
+						for _, tail := range []string{"", " 1", "--", " -- x"} {
+							emit(q0 + "x" + q1 + o + q2 + "y" + q3 + tail)
+						}
+					}
+				}
+			}
+		}
+	}
+	atoms := []string{"1", "foo", "'s'", "@v", "sexy", "17", "\"d\""}
+	for _, a := range atoms {
+		for _, o := range []string{" and ", " or ", "&&", " xor ", " div ", " mod ", " like ", " into outfile ", " into dumpfile ", " into ", " select ", " from "} {
+			for _, b := range atoms {
+				for _, tail := range []string{"", "<18", " --", "/**/", " ;", "("} {
+					emit(a + o + b + tail)
+				}
+			}
+		}
+	}
+}
+
 func sqlAll(c *corpus, r *rng, tier string, scale int) *inputSet {
 	z := tierSizes(tier, scale)
 	s := newInputSet()
@@ -350,6 +396,7 @@ func sqlAll(c *corpus, r *rng, tier string, scale int) *inputSet {
 		}
 	}
 	rec(nil, z.exhDepthLex)
+	whitelistShapes(func(x string) { s.add("whitelist-shapes", x) })
 	for i := 0; i < z.randBytes; i++ {
 		s.add("random-bytes", randomSeq(r, sqlAlphabet, 3, 9))
 	}
